@@ -20,6 +20,47 @@ def hx (b : Bytes) : String := "x" ++ bytesToHex b
 
 def showKeys (k : Keys) : String := hx k.signing ++ "," ++ hx k.encrypting ++ "," ++ hx k.iv
 
+def policyName : Policy → String
+  | .none => "none" | .basic128Rsa15 => "basic128rsa15" | .basic256 => "basic256"
+  | .basic256Sha256 => "basic256sha256" | .aes128Sha256RsaOaep => "aes128sha256rsaoaep"
+  | .aes256Sha256RsaPss => "aes256sha256rsapss" | .unknown => "unknown"
+
+def algName : HashAlg → String
+  | .sha1 => "sha1" | .sha256 => "sha256"
+
+def hashLen : HashAlg → Nat
+  | .sha1 => 20 | .sha256 => 32
+
+/-- nonce length of the policy (`secure_channel_nonce_length`), only for tagging -/
+def policyNonceLen : Policy → Nat
+  | .basic128Rsa15 => 16 | _ => 32
+
+def lenClass (pre : String) (l ref : Nat) : String :=
+  pre ++ (if l = 0 then "empty" else if l < ref then "lt" else if l = ref then "eq" else if l = ref + 1 then "eq-plus1" else "gt")
+
+def keysArms (kind : String) (p : Policy) (a b : Bytes) : List String :=
+  [kind ++ "-" ++ policyName p, lenClass "secret-len-" a.length (policyNonceLen p), lenClass "seed-len-" b.length (policyNonceLen p),
+   if a = b then "nonces-equal" else if a.length = b.length then "nonces-differ-same-length" else "nonces-differ-in-length"]
+
+def pshaArms (alg : HashAlg) (secret seed : Bytes) (n : Nat) : List String :=
+  let h := hashLen alg
+  ["psha-" ++ algName alg,
+   "psha-len-" ++ (if n = 0 then "0" else if n < h then "lt-hash" else if n = h then "eq-hash" else if n = h + 1 then "eq-hash-plus1"
+     else if n % h = 0 then "multiple-of-hash" else if n % h = 1 then "multiple-plus1" else if n % h = h - 1 then "multiple-minus1" else "other"),
+   "psha-iterations-" ++ (let k := (n + h - 1) / h; if k = 0 then "0" else if k = 1 then "1" else if k = 2 then "2" else "3plus"),
+   if secret.isEmpty then "psha-secret-empty" else "psha-secret-nonempty",
+   if seed.isEmpty then "psha-seed-empty" else "psha-seed-nonempty"]
+
+def hmacArms (alg : HashAlg) (key data : Bytes) : List String :=
+  ["hmac-" ++ algName alg, lenClass "hmac-key-len-vs-block-" key.length 64,
+   -- Merkle–Damgård padding of the inner hash: 64 key-block bytes + data; 55/56 is where one more block is needed
+   "hmac-data-rem-" ++ (let r := data.length % 64; if r = 0 then "0" else if r = 55 then "55" else if r = 56 then "56"
+      else if r = 63 then "63" else if r < 55 then "lt55" else "gt56"),
+   if data.length < 64 then "hmac-data-one-block" else "hmac-data-more-blocks"]
+
+def withArms (res : String) (arms : List String) : String :=
+  if arms.isEmpty then res else res ++ " @@ " ++ ",".intercalate arms.eraseDups
+
 def dstep (s : Unit) (toks : List String) : Unit × String :=
   match toks with
   | ["reset"] => (s, "ok")
@@ -27,23 +68,23 @@ def dstep (s : Unit) (toks : List String) : Unit × String :=
     match parsePolicy? p, hexToBytes a, hexToBytes b with
     | some p, some secret, some seed =>
       match makeKeys realH p secret seed with
-      | .ok k => (s, "ok " ++ showKeys k)
-      | .panic => (s, "panic")
+      | .ok k => (s, withArms ("ok " ++ showKeys k) (keysArms "keys" p secret seed))
+      | .panic => (s, withArms "panic" ("keys-panic" :: keysArms "keys" p secret seed))
       | .diverge => (s, "timeout")
     | _, _, _ => (s, "bad-op")
   | ["chan", p, a, b] =>
     match parsePolicy? p, hexToBytes a, hexToBytes b with
     | some p, some ln, some rn =>
       match deriveKeys realH p ln rn with
-      | .ok (l, r) => (s, "ok l=" ++ showKeys l ++ " r=" ++ showKeys r)
-      | .panic => (s, "panic")
+      | .ok (l, r) => (s, withArms ("ok l=" ++ showKeys l ++ " r=" ++ showKeys r) (keysArms "chan" p ln rn))
+      | .panic => (s, withArms "panic" ("chan-panic" :: keysArms "chan" p ln rn))
       | .diverge => (s, "timeout")
     | _, _, _ => (s, "bad-op")
   | ["psha", alg, a, b, n] =>
     match parseAlg? alg, hexToBytes a, hexToBytes b, n.toNat? with
     | some alg, some secret, some seed, some n =>
       match pSha (realH alg) secret seed n with
-      | .ok r => (s, "ok " ++ hx r)
+      | .ok r => (s, withArms ("ok " ++ hx r) (pshaArms alg secret seed n))
       | .panic => (s, "panic")
       | .diverge => (s, "timeout")
     | _, _, _, _ => (s, "bad-op")
@@ -51,7 +92,7 @@ def dstep (s : Unit) (toks : List String) : Unit × String :=
     match parseAlg? alg, hexToBytes a, hexToBytes b with
     | some alg, some key, some data =>
       match hmacVecCur (realH alg) key data with
-      | .ok r => (s, "ok " ++ hx r)
+      | .ok r => (s, withArms ("ok " ++ hx r) (hmacArms alg key data))
       | .panic => (s, "panic")
       | .diverge => (s, "timeout")
     | _, _, _ => (s, "bad-op")
